@@ -118,6 +118,12 @@ Theorem C01_conditional_same_branches_sound : forall e e', wf e = true -> r4_tst
 Proof. exact r4_tst_same_sound. Qed.
 Print Assumptions C01_conditional_same_branches_sound.
 
+(* comp.restruct (consecutive constant parts of a composition gathered into one constant): well-sizedness, width and meaning kept *)
+Theorem C01_restruct_sound : forall env e, wf e = true ->
+  wf (restruct e) = true /\ esize (restruct e) = esize e /\ forall d, denote env e = Some d -> denote env (restruct e) = Some d.
+Proof. exact restruct_sound. Qed.
+Print Assumptions C01_restruct_sound.
+
 (* Non-vacuity of the rule theorems: each rule fires on a concrete well-sized node *)
 Example C01_rules_fire :
   let a := EReg 0 8 false in let b := EReg 1 8 false in let k c := ECst c 8 false in
@@ -132,6 +138,7 @@ Example C01_rules_fire :
   r3_slc_push (ESlc (EOp And a b 8 false) 2 4 false) = Some (EOp And (ESlc a 2 4 false) (ESlc b 2 4 false) 4 false) /\
   r3_slc_push (ESlc (EOp Add a b 8 false) 2 4 false) = None /\
   r4_tst_const (ETst (ECst 0 1 false) a b 8 false) = Some b /\
+  restruct (ECat (ECst 255 8 true) (ECat (ECst 255 8 false) a 16 false) 24 false) = ECat (ECst 65535 16 false) a 24 false /\
   r2_comp_logic (EOp Xor (ECat (EReg 2 4 false) (EReg 3 4 false) 8 false) (k 90) 8 false)
     = Some (ECat (EOp Xor (EReg 2 4 false) (ECst 10 4 false) 4 false) (EOp Xor (EReg 3 4 false) (ECst 5 4 false) 4 false) 8 false).
 Proof. vm_compute. repeat split; reflexivity. Qed.
